@@ -9,7 +9,7 @@ Local Open Scope N_scope.
 
 Theorem winv_step w o : WInv w → wf_op w o → WInv (pstep w o).1.
 Proof.
-  intros HI Hwf. destruct o as [e|key nodes orc fl|ns name uid node orc fl|n orc oun fl|ip orc ocl fl|k ip ocl fl|key fl|io|conf].
+  intros HI Hwf. destruct o as [e|key nodes orc fl|ns name uid node orc fl|n orc oun fl|ip orc ocl fl|k ip ocl fl|sp fl|io|conf].
   - cbn [pstep fst]. by apply winv_env.
   - by apply winv_filter.
   - by apply winv_bind.
